@@ -15,7 +15,7 @@ NOTE = ("Trusted: the reference model and oracles in harness/src (model.rs, moni
         "enumerated within the bounds reported in the evidence file; says nothing about larger shapes or longer histories.")
 
 LANES_STD = {"quick": L(dbg=4, rel=4, asan=4, miri=8), "thorough": L(dbg=8, rel=8, asan=8, miri=16, vg=8)}
-LANES_HEAVY = {"quick": L(dbg=8, rel=8, asan=8, miri=8), "thorough": L(dbg=16, rel=16, asan=16, miri=16, vg=8)}
+LANES_HEAVY = {"quick": L(dbg=8, rel=8, asan=8, miri=12), "thorough": L(dbg=16, rel=16, asan=16, miri=16, vg=8)}
 
 PROPS = {
     "C04": {
@@ -108,5 +108,92 @@ PROPS = {
     },
 }
 
-for _p in PROPS.values():
+PROPS.update({
+    "C01": {
+        "level": "exploration",
+        "lanes": LANES_HEAVY,
+        "rule": "histories of safe public calls on an owned array, executed side by side with the rows-of-cells model; after EVERY step (accepted, rejected-with-panic) the shape invariant (dims*=len, zero rule, rows()/cells()/col(c) lengths, capacity), cell-by-cell equality with the model through data()/Index forms, and the ownership ledger are checked. (a) bounded-exhaustive: every history up to the depth bound over a reduced structural alphabet (insert_row/insert_col with every index 0..=d+1 and length 0..=d+1, remove_row/remove_col with every index and 4 drain splits, pop, clear, swap_dimensions, shrink_to_fit, clone) from six constructors; (b) seeded random histories of 40-60 steps over the full alphabet (constructors incl. invalid dims, insert/remove/push/pop with valid and invalid arguments and all drain splits, clear, swap_dimensions, capacity calls, data_mut writes, every in-place trait operation on the array and on random view_mut windows, From<view>), biased to stay small so that shrink-to-empty and regrow happen constantly; element types Tok (owning), Kv (Copy) and Zst. distinct = histories (identified by their step list / seed) that moved at least one element and passed every check; distinct (shape before, operation, shape after, accepted|rejected) transitions are counted separately.",
+        "must_observe": ["steps", "rejected", "transitions", "passed_through_empty"],
+        "text": "Runtime exploration over histories: a history interpreter drives the real TooDee and a rows-of-cells model with the same calls (exhaustively to a small depth, then randomly) and evaluates the shape invariant and cell equality after every step, including steps rejected with a panic; under ub_checks, release, ASan, Miri and memcheck.",
+        "design_ref": "DESIGN.md 5 (C01)", "technique": "runtime monitoring: invariant hook at every quiescent point + executable reference model over exhaustive/random histories, sanitizer lanes",
+    },
+    "C02": {
+        "level": "exploration", "exhaustive": True,
+        "lanes": LANES_STD,
+        "rule": "case = receiver (owned array of every shape up to NxN; TooDeeView / TooDeeViewMut at every window of every parent up to MxM; views built over a longer slice); inside it every coordinate (c,r) with c,r from {0..dim+2, usize::MAX, usize::MAX-1, usize::MAX/2, usize::MAX/2+1, 2^32, 2^63, rows whose stride product wraps to an in-range offset, columns whose sum wraps} is tried through every accessor form: x[(c,r)], x[r][c], x[r], col(c)[r], col(c).nth(r), rows().nth(r)[c], the IndexMut/col_mut forms, and (in range only) the unchecked getters. In range: all forms must yield the one expected address (parent base + (start.1+r)*stride + start.0+c; for owned arrays data()[r*num_cols+c]). Out of range: every checked form must panic and the buffer must be unchanged. Runs in overflow-checked (dbg) and overflow-unchecked (rel, asan) builds. distinct = receivers with >=1 cell that passed; coordinate classes reached are counted separately.",
+        "must_observe": ["accessor_calls", "coord_classes"],
+        "text": "Bounded-exhaustive runtime exploration of every checked accessor form on every receiver kind with in-range, just-out-of-range and wrap-provoking coordinates, in both overflow-checked and overflow-unchecked builds; judged by address identity and a must-panic rule.",
+        "design_ref": "DESIGN.md 5 (C02)", "technique": "runtime monitoring: address-identity oracle + must-panic rule, debug and release builds, sanitizer lanes",
+    },
+    "C03": {
+        "level": "exploration", "exhaustive": True,
+        "lanes": LANES_STD,
+        "rule": "depth 1: for every parent shape up to NxN and root kind {TooDee::view, TooDee::view_mut, TooDeeView::new(slice longer than needed).view, TooDeeViewMut::new(..).view / view_mut}, EVERY (start,end) with components in 0..=dim+1 (valid and invalid) plus huge coordinates; depth 2 and 3: every valid outer window chain x every innermost (start,end) pair, through the receiver chains V.V, M.V, M.M, V.V.V, M.V.V, M.M.V, M.M.M. Valid requests must succeed with size end-start (or (0,0)), every cell / rows() slice / col(c) item at the parent's address, and writes through view_mut must change exactly those root-buffer cells (whole buffer diffed; single-cell writes for small windows); invalid requests must panic. distinct = (depth, chain kind, parent shape, window path) that passed or was correctly rejected.",
+        "must_observe": ["addresses_compared", "rejected", "cells_written_through"],
+        "text": "Bounded-exhaustive runtime exploration of view/view_mut: every start/end pair, zero-extent windows anywhere, nesting depth 1-3 through all receiver kinds; judged by address identity of every cell, whole-buffer write-through diff, and the must-panic rule; Miri and ub_checks observe the slice formation itself.",
+        "design_ref": "DESIGN.md 5 (C03)", "technique": "runtime monitoring: address-identity oracle + write-through diff + must-panic rule, Miri/ub_checks on slice formation",
+    },
+    "C05": {
+        "level": "exploration", "leakcheck": True,
+        "lanes": LANES_HEAVY,
+        "rule": "panic-free histories (steps the model would reject are skipped, never executed) on arrays of owning elements: Tok (heap allocation + ledger entry, unique id) and Zst (counted creations/drops). Same interpreter as C01 plus conversions (Vec::from / Box::from round trips, into_iter consumed from both ends then dropped, clone, From<view>). After every step: every reachable element live, distinct, not simultaneously held by the caller, no double drop; at the end of each history everything is dropped and the ledger must be empty (Zst: created == dropped); LeakSanitizer, Miri's leak check and memcheck's leak check are ON in this workload. distinct = histories that moved >=1 owning element and passed.",
+        "must_observe": ["steps", "tokens_created", "tokens_dropped", "drain_items"],
+        "text": "Runtime exploration over panic-free histories with resource-owning and zero-sized counted elements: a drop ledger proves exactly-once ownership at every step and emptiness at the end; ASan/LSan, Miri (leak check on) and memcheck independently watch the heap allocations the elements own.",
+        "design_ref": "DESIGN.md 5 (C05)", "technique": "runtime monitoring: drop ledger (exactly-once / conservation) over histories + LSan/Miri/memcheck leak and double-free detection",
+    },
+    "C11": {
+        "level": "fault_enumeration",
+        "lanes": LANES_STD,
+        "rule": "crash-point enumeration: for every operation that runs caller code (insert_row/push_row/insert_col/push_col with an instrumented iterator; new; init; clone; fill, clone_from_slice, clone_from_toodee on owned arrays and on views; From<view>; remove_row/remove_col drains dropped after (front,back) items; clear; drop; all 11 sort variants on owned arrays and views) x every shape up to NxN x every index: a fault-free run counts the calls of each kind {into_iter, len, next, next_back, iterator drop, Clone, Default, element Drop, comparator, key function}, then for every kind and every k < count the k-th call panics (Drop faults are postponed while already unwinding). Lying iterators (len +1, +3, -1, 0, usize::MAX, usize::MAX/2+1, flickering) on empty and non-empty arrays, alone and combined with next() faults. After catch_unwind: shape invariant, every reachable element live+distinct+not caller-held, no double drop; then the survivor is used further (read all, push_row, insert_col, remove_col, two sorts, clone, remove_row, swap_dimensions, drop) and re-checked. Leaks are allowed. distinct = (operation, shape, index/arguments, callback kind, k) crash points at which a panic was actually injected and the survivor passed.",
+        "must_observe": ["panics_injected", "survivor_followups", "lying_iterators"],
+        "text": "Fault enumeration over crash points: every k-th call into caller-supplied code is made to panic in every operation that runs caller code, plus iterators that lie about their length; the array that survives catch_unwind is validated (shape invariant + ledger) and then used further and dropped, under ub_checks, release, ASan, Miri and memcheck.",
+        "design_ref": "DESIGN.md 5 (C11)", "technique": "runtime monitoring with fault injection: k-th-callback panic enumeration, invariant + ledger check on the survivor, continued use, sanitizer lanes",
+    },
+    "C12": {
+        "level": "fault_enumeration",
+        "lanes": LANES_STD,
+        "rule": "leak-point enumeration: every value the API returns that has a destructor or holds a borrow - DrainRow (remove_row, pop_row), DrainCol (remove_col, pop_col), Rows, RowsMut, Col, ColMut, Cells, CellsMut, TooDeeView, TooDeeViewMut (and a RowsMut of it), IntoIter - is mem::forget-ed after (front,back) items were taken, for every shape up to NxN, every index, Tok and Zst elements. Afterwards: shape invariant, every reachable element live+distinct+not caller-held and one of the original elements, borrow-only values leave the array unchanged; then the survivor is used further as in C11 and dropped; no double drop then or later. distinct = (returned type, shape, index, front, back, element type) that passed.",
+        "must_observe": ["leaks_injected", "survivor_followups"],
+        "text": "Fault enumeration over leak points: every returned drain / iterator / view is leaked at every consumption stage; the array is then validated, used further and dropped under the ledger and the sanitizer lanes.",
+        "design_ref": "DESIGN.md 5 (C12)", "technique": "runtime monitoring with fault injection: mem::forget enumeration, invariant + ledger check, continued use, sanitizer lanes",
+    },
+    "C18": {
+        "level": "exploration",
+        "lanes": {"quick": L(dbg=4, rel=4, asan=2, miri=4), "thorough": L(dbg=8, rel=8, asan=4, miri=8)},
+        "rule": "every shape up to NxN (incl. (0,0), 1xN, Nx1) plus seeded random shapes up to 12x12 x element types {u32, i64, String with quotes/backslashes/control characters/non-BMP/field-name look-alikes, Option<u32>, Vec<i32>, (u8,String)} x encoder {to_string, to_vec, to_writer, to_value} x decoder {from_str, from_slice, from_reader, from_value}: decode(encode(a)) must equal a by ==, size() and data(); every window of every parent up to MxM serialised as TooDeeView<u32> and TooDeeViewMut<u32> must decode to TooDee::from(view). distinct = (element type, shape, encoder, decoder) / (view kind, parent, window, encoder, decoder) that round-tripped.",
+        "must_observe": ["roundtrips_ok"],
+        "text": "Runtime exploration: the full 4x4 encoder/decoder matrix of serde_json transports is run over all small shapes, six element types and every view window, and the decoded array is compared with the original.",
+        "design_ref": "DESIGN.md 5 (C18)", "technique": "runtime monitoring: round-trip oracle over the transport matrix",
+    },
+    "C19": {
+        "level": "exploration",
+        "lanes": {"quick": L(dbg=4, rel=4, asan=2, miri=4), "thorough": L(dbg=8, rel=8, asan=4, miri=8)},
+        "rule": "grammar-generated documents: every sequence of up to L field keys over {num_cols, num_rows, data, extra, num_col} (every subset, order and duplication of the three fields plus unknown ones), dimension literals {0,1,2,3,4,6,2^32,2^63,2^64-1,2^64,-1,1.5,1e3,2.0,\"3\",null,true,[],{},[2],-2^63-1,1E400}, data arrays of length prod-1, prod, prod+1, 0,1,2 with well- and ill-typed elements, non-array data; element types u32, String, Option<u8>; with/without whitespace; plus byte-level mutations (truncate, bit flip, delete, insert, duplicate a span) and top-level non-objects. Each document goes through from_str, from_slice, from_reader, from_value. An independent classifier over the generated structure says must-reject (no consistent combination of stated occurrences) / must-accept-as-stated (exactly the three fields, consistent) / either (unknown or duplicated fields: if accepted, dims and cells must be those of a consistent combination of stated occurrences). Never a panic; every accepted array satisfies the shape invariant. distinct = (element type, field pattern with value classes, class).",
+        "must_observe": ["accepted", "rejected", "mutated_docs", "doc_classes"],
+        "text": "Runtime exploration with a document grammar and an independent classifier: the deserialiser must never panic, must reject every inconsistent document, must accept consistent ones exactly as stated, and every accepted array must satisfy the shape invariant, over all four serde_json transports.",
+        "design_ref": "DESIGN.md 5 (C19)", "technique": "runtime monitoring: grammar-based input generation + independent reference classifier + never-panic/shape oracle",
+    },
+    "C20": {
+        "level": "exploration", "exhaustive": True,
+        "lanes": LANES_STD,
+        "rule": "constructors: every dimension pair over {0..N} u {usize::MAX, usize::MAX/2+1, 2^32, 2^32+1, 2^63} x buffer lengths {0, 1, prod-1, prod, prod+1, prod+7, the wrapped product} for from_vec, from_box (Kv, Tok, Zst), TooDeeView::new, TooDeeViewMut::new, and new/init on the same pairs (accepted products capped at 4096 cells): accepted results are compared with the model (dims, row-major cells: default / clone of the given value / the given buffer by identity; views by address), must-panic for overflow, misfit and exactly-one-zero dimension. From<view>/From<view_mut> for every window of every parent up to MxM (equal cells, fresh owners, parent untouched). Conversions Vec::from, Box::from, AsRef/AsMut, into_iter consumed (front,back) then dropped: cells row-major by identity, ledger exactly-once. clone(): equal, separate buffer, separate owners, mutating the clone leaves the original intact. Eq/Hash: ALL pairs of arrays with cells over {0,1} of up to K cells in every factorisation shape: a==b iff same dims and cells, a==b implies equal hashes. distinct = constructor (kind, dim classes, dims, buffer relation, element type, accepted|rejected), conversion, window and array-pair cases that passed.",
+        "must_observe": ["accepted", "rejected", "eq_pairs"],
+        "text": "Bounded-exhaustive runtime exploration of every constructor and conversion over small and overflow-provoking dimension pairs and buffer lengths, Copy / owning / zero-sized elements, plus an all-pairs Eq/Hash sweep; judged by the model, address identity, the ledger and the must-panic rule.",
+        "design_ref": "DESIGN.md 5 (C20)", "technique": "runtime monitoring: reference model + must-panic rule + drop ledger over exhaustive dimension/buffer pairs, sanitizer lanes",
+    },
+})
+
+# uniform thinning of the case list in the slow lanes (evidence reports the cases each lane executed)
+STRIDES = {
+    "C01": {"quick": {"asan": 3}},
+    "C02": {"quick": {"miri": 2, "asan": 2}},
+    "C08": {"quick": {"miri": 2}},
+    "C09": {"quick": {"asan": 2}},
+    "C10": {"quick": {"miri": 3, "asan": 2}},
+    "C13": {"quick": {"asan": 3}},
+    "C14": {"quick": {"asan": 2}},
+}
+for _k, _p in PROPS.items():
     _p.setdefault("note", NOTE)
+    if _k in STRIDES:
+        _p["stride"] = STRIDES[_k]
